@@ -258,10 +258,34 @@ class Engine:
         '''Model of the current path condition (witness that the path is non-vacuous).'''
         if self.concrete is not None:
             return dict(self.concrete)
+        hint = self.path_local.get('witness_hint')
+        if hint:
+            saved = self.model
+            r = self._check(*hint)        # prefer a generic witness (e.g. pairwise distinct inputs)
+            if r == z3.sat:
+                return self.model_inputs(self.model)
+            self.model = saved
         r = self._check()
         if r != z3.sat:
             return None
         return self.model_inputs(self.model)
+
+    def witness_hint(self, *terms):
+        if self.concrete is None:
+            self.path_local.setdefault('witness_hint', []).extend(as_z3_bool(t) for t in terms)
+
+    def hint_distinct(self, values):
+        '''Witness preference: the given SBytes / numbers pairwise different.'''
+        if self.concrete is not None:
+            return
+        vals = list(values)
+        for i in range(len(vals)):
+            for j in range(i + 1, len(vals)):
+                t = deep_eq(vals[i], vals[j])
+                if t is True:
+                    continue
+                if t is not False:
+                    self.witness_hint(z3.Not(t))
 
     def model_inputs(self, model):
         out = {}
@@ -297,7 +321,7 @@ class Engine:
         if n == 0:
             return SBytes([])
         t = self._register(name, 'bytes', z3.BitVec(name, 8 * n))
-        return SBytes([z3.Extract(8 * (n - i) - 1, 8 * (n - i - 1), t) for i in range(n)])
+        return bytes_of_term(t, n)
 
     def fresh_word(self, name, bits, signed=False):
         if self.concrete is not None:
@@ -383,6 +407,15 @@ class Engine:
                 outcome = 'violation'
                 st.violations.append({'label': v.label, 'inputs': v.inputs, 'detail': v.detail,
                                       'notes': list(self.labels)[:40]})
+            except Exception as e:   # noqa - escaped from the code under test
+                if not _raised_in_repo(e):
+                    raise
+                outcome = 'violation'
+                w = self.reachable()
+                st.violations.append({'label': f'exception:{type(e).__name__}', 'inputs': w,
+                                      'detail': {'signature': f'exception:{type(e).__name__}',
+                                                 'message': str(e)[:300], 'where': _where(e)},
+                                      'notes': list(self.labels)[:40]})
             except Abort as a:
                 outcome = a.kind
                 st.aborted[a.kind] = st.aborted.get(a.kind, 0) + 1
@@ -420,13 +453,44 @@ class Engine:
             return None
         except Violation as v:
             return v
+        except Exception as e:   # noqa
+            if not _raised_in_repo(e):
+                raise
+            return Violation(f'exception:{type(e).__name__}', dict(self.concrete),
+                             {'signature': f'exception:{type(e).__name__}', 'message': str(e)[:300],
+                              'where': _where(e)})
+
+
+REPO_PREFIX = '/repo/'
+
+
+def _raised_in_repo(e):
+    '''True if the exception passed through a frame of the code under test.'''
+    tb = e.__traceback__
+    while tb is not None:
+        if tb.tb_frame.f_code.co_filename.startswith(REPO_PREFIX):
+            return True
+        tb = tb.tb_next
+    return False
+
+
+def _where(e):
+    tb = e.__traceback__
+    last = None
+    while tb is not None:
+        if tb.tb_frame.f_code.co_filename.startswith(REPO_PREFIX):
+            last = f'{tb.tb_frame.f_code.co_filename[len(REPO_PREFIX):]}:{tb.tb_frame.f_code.co_name}'
+        tb = tb.tb_next
+    return last
 
 
 def _short(w):
     if w is None:
         return None
     out = {}
-    for k, v in list(w.items())[:24]:
+    for k, v in list(w.items())[:16]:
+        if isinstance(v, dict) and 'bytes' in v and len(v['bytes']) > 24:
+            v = {'bytes': v['bytes'][:20] + '...', 'len': len(v['bytes']) // 2}
         out[k] = v
     return out
 
@@ -672,7 +736,7 @@ class SWord:
             lo, hi = (-(1 << (w - 1)), (1 << (w - 1)) - 1) if self.signed else (0, (1 << w) - 1)
             if lo <= o <= hi:
                 return self.e, z3.BitVecVal(o, w), self.signed
-            return 'out', (o < lo), None
+            return _OUT, (o < lo), None
         return None
 
     def _cmp(self, o, uf, sf, below, above):
@@ -681,7 +745,7 @@ class SWord:
         p = self._pair(o)
         if p is None:
             return NotImplemented
-        if p[0] == 'out':
+        if p[0] is _OUT:
             return below if p[1] else above      # o is below / above our whole range
         a, b, signed = p
         return _bool(uf(a, b, signed))
@@ -690,7 +754,7 @@ class SWord:
         if isinstance(o, SInt):
             return self.to_int() == o
         p = self._pair(o)
-        if p is None or p[0] == 'out':
+        if p is None or p[0] is _OUT:
             return False
         return _bool(p[0] == p[1])
 
@@ -782,6 +846,9 @@ class SWord:
         return f'SWord{self.e.size()}({z3.simplify(self.e)})'
 
 
+_OUT = object()
+
+
 def _ext(e, w, signed):
     d = w - e.size()
     if d <= 0:
@@ -803,10 +870,36 @@ def _norm_cell(x):
 
 class SBytes:
     '''Byte string of concrete length; each cell is an int or a z3 BitVec(8) term.'''
-    __slots__ = ('c',)
+    __slots__ = ('_c', 'w')
 
-    def __init__(self, cells):
-        self.c = cells if isinstance(cells, list) else list(cells)
+    def __init__(self, cells, parts=None):
+        # cells may be None when parts are given: they are then derived lazily
+        self._c = cells if (cells is None or isinstance(cells, list)) else list(cells)
+        # optional: list of (z3 BitVec term | bytes, nbytes) whose concatenation is exactly the
+        # cells; lets equality and hashing work on a few wide terms instead of per byte
+        self.w = parts
+
+    @property
+    def c(self):
+        c = self._c
+        if c is None:
+            c = []
+            for t, n in self.w:
+                if isinstance(t, bytes):
+                    c += list(t)
+                else:
+                    c += [z3.Extract(8 * (n - i) - 1, 8 * (n - i - 1), t) for i in range(n)]
+            self._c = c
+        return c
+
+    @c.setter
+    def c(self, v):
+        self._c = v
+
+    def parts(self):
+        if self.w is not None:
+            return self.w
+        return None
 
     @staticmethod
     def of(x):
@@ -817,16 +910,20 @@ class SBytes:
         raise TypeError(f'cannot make SBytes from {type(x).__name__}')
 
     def is_concrete(self):
-        return all(isinstance(x, int) for x in self.c)
+        if self._c is None:
+            return all(isinstance(t, bytes) for t, _n in self.w)
+        return all(isinstance(x, int) for x in self._c)
 
     def concrete(self):
         return bytes(self.c)
 
     def __len__(self):
-        return len(self.c)
+        if self._c is None:
+            return sum(n for _t, n in self.w)
+        return len(self._c)
 
     def __bool__(self):
-        return len(self.c) > 0
+        return len(self) > 0
 
     def __iter__(self):
         for x in self.c:
@@ -839,6 +936,8 @@ class SBytes:
                 start = start.__index__()
             if isinstance(stop, (SInt, SWord)):
                 stop = stop.__index__()
+            if step is None and (start is None or start == 0) and (stop is None or stop >= len(self)):
+                return SBytes(None if self._c is None else list(self._c), self.w)
             return SBytes(self.c[slice(start, stop, step)])
         if isinstance(i, (SInt, SWord)):
             i = i.__index__()
@@ -847,14 +946,22 @@ class SBytes:
 
     def __add__(self, o):
         if isinstance(o, SBytes):
+            if self.w is not None and o.w is not None:
+                return SBytes(None, self.w + o.w)
             return SBytes(self.c + o.c)
         if isinstance(o, (bytes, bytearray, memoryview)):
-            return SBytes(self.c + list(bytes(o)))
+            o = bytes(o)
+            if self.w is not None:
+                return SBytes(None, self.w + ([(o, len(o))] if o else []))
+            return SBytes(self.c + list(o))
         return NotImplemented
 
     def __radd__(self, o):
         if isinstance(o, (bytes, bytearray, memoryview)):
-            return SBytes(list(bytes(o)) + self.c)
+            o = bytes(o)
+            if self.w is not None:
+                return SBytes(None, ([(o, len(o))] if o else []) + self.w)
+            return SBytes(list(o) + self.c)
         return NotImplemented
 
     def __mul__(self, n):
@@ -862,16 +969,20 @@ class SBytes:
 
     def _eq_term(self, o):
         '''z3 Bool / python bool for equality with another bytes-like.'''
-        if isinstance(o, (bytes, bytearray, memoryview)):
-            oc = list(bytes(o))
-        elif isinstance(o, SBytes):
+        if not isinstance(o, (bytes, bytearray, memoryview, SBytes)):
+            return None
+        if len(o) != len(self):
+            return False
+        wide = _wide_eq(self, o)
+        if wide is not None:
+            return wide
+        if isinstance(o, SBytes):
             oc = o.c
         else:
-            return None
+            oc = list(bytes(o))
         if len(oc) != len(self.c):
             return False
         conj = []
-        # group runs of symbolic cells into wide comparisons to keep terms small
         for a, b in zip(self.c, oc):
             if isinstance(a, int) and isinstance(b, int):
                 if a != b:
@@ -961,20 +1072,72 @@ class SBytes:
         return self.hex()
 
 
+def _wide_eq(a, o):
+    '''Equality through the wide parts when both sides have the same partition.'''
+    if a.w is None:
+        return None
+    if isinstance(o, SBytes):
+        if o.w is None:
+            return None
+        pa, pb = a.w, o.w
+        if len(pa) != len(pb) or any(x[1] != y[1] for x, y in zip(pa, pb)):
+            return None
+    else:
+        ob = bytes(o)
+        pa, pb, off = a.w, [], 0
+        for _t, n in pa:
+            pb.append((ob[off:off + n], n))
+            off += n
+    conj = []
+    for (x, n), (y, _n) in zip(pa, pb):
+        xb, yb = isinstance(x, bytes), isinstance(y, bytes)
+        if xb and yb:
+            if x != y:
+                return False
+            continue
+        if not xb and not yb and z3.eq(x, y):
+            continue
+        xt = z3.BitVecVal(int.from_bytes(x, 'big'), 8 * n) if xb else x
+        yt = z3.BitVecVal(int.from_bytes(y, 'big'), 8 * n) if yb else y
+        conj.append(xt == yt)
+    if not conj:
+        return True
+    return z3.And(*conj) if len(conj) > 1 else conj[0]
+
+
+def wide_term(x):
+    '''One z3 BitVec term for the whole byte string.'''
+    if x.w is not None:
+        ts = [z3.BitVecVal(int.from_bytes(t, 'big'), 8 * n) if isinstance(t, bytes) else t for t, n in x.w]
+    else:
+        ts = [_cell(c) for c in x.c]
+    return z3.Concat(*ts) if len(ts) > 1 else ts[0]
+
+
+def bytes_of_term(t, n):
+    '''SBytes of n bytes whose cells are the big-endian bytes of the BitVec(8n) term t.'''
+    return SBytes(None, [(t, n)])
+
+
 class SByteArray(SBytes):
     __slots__ = ()
 
     def extend(self, o):
         self.c += SBytes.of(o).c
+        self.w = None
 
     def __iadd__(self, o):
         self.c += SBytes.of(o).c
+        self.w = None
         return self
 
     def clear(self):
         self.c.clear()
+        self.w = None
 
     def __setitem__(self, i, v):
+        _ = self.c
+        self.w = None
         if isinstance(i, slice):
             self.c[i] = SBytes.of(v).c
         else:
